@@ -79,7 +79,12 @@ func vC19Battery(st *vC19State, q pilosa.TimeQuantum, rows []uint64, allStamps [
 		}
 		want = append(want, vgtSortedSet(m))
 		for _, rg := range ranges {
-			calls = append(calls, fmt.Sprintf("Row(f=%d, from=%s, to=%s)", r, vgtPQLTime(rg.from), vgtPQLTime(rg.to)))
+			if len(calls)%3 == 0 && rg.from.Unix() > 0 {
+				// the same bounds as unix seconds
+				calls = append(calls, fmt.Sprintf("Row(f=%d, from=%d, to=%d)", r, rg.from.Unix(), rg.to.Unix()))
+			} else {
+				calls = append(calls, fmt.Sprintf("Row(f=%d, from=%s, to=%s)", r, vgtPQLTime(rg.from), vgtPQLTime(rg.to)))
+			}
 			m := map[uint64]bool{}
 			for b, tss := range st.stamps {
 				if b.Row != r {
